@@ -21,4 +21,5 @@ def run(ctx, rep):
     e12_pairing.check_cycle_transport(facts, rep)
     e9_relations.run(facts, rep, parts=('R1', 'R4', 'R6'))
     e8_formulas.check_elimination(facts, rep)
+    e8_formulas.check_pivot_eligibility(facts, rep)
     e8_formulas.check_divisibility(facts, rep)
